@@ -483,7 +483,7 @@ Proof. exact nonblank_is_bare. Qed.
     and dropped after its last creation; [dropped_history] = only dropped.
 
     FULL STATEMENTS at this level (both FALSE, see the [_refuted] theorems; same root cause as rounds 1-2, one span
-    state per name per file, plus: loadSpans has no case for Rename changes):
+    state per name per file; round-5 finding `renamed` -- loadSpans had no case for Rename changes -- is repaired by fix C18-loadspans-rename, theorem 41):
       C18_complete_generic (full): every Drop change that removes an incarnation that existed before the file is reported.
       C18_sound_generic (full): no Drop change that removes an incarnation the file itself created is reported.
     PROVED, for all change lists: the span of every name is the end state of its history (any history), the exact
@@ -493,8 +493,9 @@ Proof. exact nonblank_is_bare. Qed.
 Theorem C18_generic_spans_are_histories :
   forall (cl : list gschange) (s t c : name),
   SchemaSpan_g (loadSpans_g cl) s = state_of (schema_hist cl s) /\
-  TableSpan_g (loadSpans_g cl) s t = state_of (table_hist cl s t) /\
-  ColumnSpan_g (loadSpans_g cl) s t c = state_of (column_hist cl s t c).
+  (rename_free cl ->     (* histories are per name; a rename carries a life-span to another name: theorem 41 *)
+   TableSpan_g (loadSpans_g cl) s t = state_of (table_hist cl s t) /\
+   ColumnSpan_g (loadSpans_g cl) s t c = state_of (column_hist cl s t c)).
 Proof. exact spans_are_histories. Qed.
 Print Assumptions C18_generic_spans_are_histories.
 
@@ -513,6 +514,7 @@ Print Assumptions C18_generic_history_state.
 (** 33. The report of Analyze, exactly, on any change list it does not panic on. *)
 Theorem C18_generic_exact :
   forall (error : bool) (cl : list gschange) ds rep err,
+  rename_free cl ->
   Analyze_g error cl = GDone ds rep err ->
   forall d, In d ds <-> exists sc c, In sc cl /\ In c (gsc_changes sc) /\ diag_of cl (gsc_pos sc) c d.
 Proof. exact Analyze_g_exact. Qed.
@@ -526,6 +528,7 @@ Print Assumptions C18_generic_exact.
     event of the name is a Drop. *)
 Theorem C18_complete_generic :
   forall (error : bool) (cl : list gschange) ds rep err,
+  rename_free cl ->
   Analyze_g error cl = GDone ds rep err ->
   (forall sc S0, In sc cl -> In (GDropSchema S0) (gsc_changes sc) ->
      ~ temp_history (schema_hist cl (gs_name S0)) ->
@@ -549,6 +552,7 @@ Print Assumptions C18_complete_generic.
     created in the file and dropped after its last creation is never named. *)
 Theorem C18_sound_generic :
   forall (error : bool) (cl : list gschange) ds rep err,
+  rename_free cl ->
   Analyze_g error cl = GDone ds rep err ->
   forall d, In d ds -> exists sc, In sc cl /\ gd_pos d = gsc_pos sc /\ sound_diag cl sc d.
 Proof. exact sound_generic. Qed.
@@ -604,19 +608,35 @@ Theorem C18_generic_refuted_readded_schema :
 Proof. exists w_readd_schema, g_s1. exact readded_schema_silent. Qed.
 Print Assumptions C18_generic_refuted_readded_schema.
 
-(** 41. The full soundness statement is false on change lists with renames: a table / column the file created,
-    renamed and dropped under its new name is reported (loadSpans has no case for RenameTable / RenameColumn). *)
-Theorem C18_generic_refuted_renamed :
-  exists cl1 cl2 p,
-    cl1 = [mkGSC 0 [GAddTable g_T]; mkGSC 8 [GRenameTable g_T g_U]; mkGSC p [GDropTable g_U]] /\
-    Analyze_g true cl1 = GDone [mkGD GDS102 p [g_u] 0] true true /\
-    Analyze_g true cl2 = GDone [mkGD GDS103 p [[98]%N] 0] true true /\
-    forallb (fun c => match c with GDropTable _ | GDropSchema _ | GAddTable _ => false | _ => true end) (all_gchanges cl2) = true.
-Proof.
-  exists w_renamed, w_renamed_col, 18%N. split; [reflexivity|].
-  split; [exact (proj1 renamed_flagged)|]. split; [exact (proj2 renamed_flagged)|]. reflexivity.
-Qed.
-Print Assumptions C18_generic_refuted_renamed.
+(** 41. Renames, AFTER fix C18-loadspans-rename (before it loadSpans had no case for RenameTable / RenameColumn and
+    the two lists below were reported: DS102 "u" / DS103 "b", the former witness C18_generic_refuted_renamed).
+    One loadSpans step on RenameTable F T: the new name takes over the table's state and all its column states, no
+    other table and no schema state changes; on RenameColumn a b: the new name takes over the column's state, the old
+    name is forgotten, no other column changes. *)
+Theorem C18_generic_rename_carries_span :
+  (forall sp F T sf st, gt_schema F = Some sf -> gt_schema T = Some st ->
+     let sp' := span_gchange sp (GRenameTable F T) in
+     TableSpan_g sp' st (gt_name T) = TableSpan_g sp sf (gt_name F) /\
+     (forall c, ColumnSpan_g sp' st (gt_name T) c = ColumnSpan_g sp sf (gt_name F) c) /\
+     (forall s t, tab_is T s t = false -> ss_tabs (sp' s) t = ss_tabs (sp s) t) /\
+     (forall s, SchemaSpan_g sp' s = SchemaSpan_g sp s)) /\
+  (forall cols a b c,
+     let cols' := span_gtchange cols (GRenameColumn a b) in
+     (gc_name a <> gc_name b -> cols' (gc_name b) = cols (gc_name a)) /\
+     cols' (gc_name a) = SpanUnknown /\
+     (c <> gc_name a -> c <> gc_name b -> cols' c = cols c)).
+Proof. split; [exact rename_table_carries_span|exact rename_column_carries_span]. Qed.
+Print Assumptions C18_generic_rename_carries_span.
+
+(** 41'. ... so a table / column the file created, renamed and dropped under its new name is a temporary object again
+    (nothing reported), while one that existed before the file, renamed and dropped, stays reported. *)
+Theorem C18_generic_renamed_temp_clean :
+  Analyze_g true [mkGSC 0 [GAddTable g_T]; mkGSC 8 [GRenameTable g_T g_U]; mkGSC 18 [GDropTable g_U]] = GDone [] false false /\
+  Analyze_g true [mkGSC 0 [GModifyTable g_T [GAddColumn g_a]]; mkGSC 8 [GModifyTable g_T [GRenameColumn g_a g_b]];
+                  mkGSC 18 [GModifyTable g_T [GDropColumn g_b]]] = GDone [] false false /\
+  Analyze_g true w_renamed_pre = GDone [mkGD GDS103 18 [[98]%N] 0; mkGD GDS102 30 [g_u] 0] true true.
+Proof. split; [exact (proj1 renamed_clean)|]. split; [exact (proj2 renamed_clean)|exact renamed_pre_reported]. Qed.
+Print Assumptions C18_generic_renamed_temp_clean.
 
 (** * Round 5 -- the analysed window: project file against explicit flags (Lint/LintEnvModel.v) *)
 
@@ -741,6 +761,7 @@ Print Assumptions C18_rebuild_group_in_file.
     analyzer the CLI stages exercise. *)
 Theorem C18_generic_refines_sqlite_model :
   forall (error : bool) (cl : list schange),
+  no_rename_c cl ->      (* no RenameTableC: the only lists the OSS DevLoader produces (mayFix = identity) *)
   Analyze_g error (map esc cl) =
   GDone (map ediag (Analyze cl)) (nonempty (Analyze cl)) (nonempty (Analyze cl) && error).
 Proof. exact Analyze_refines. Qed.
